@@ -14,7 +14,7 @@ Definition Rleb (a b : R) : bool := if Rle_dec a b then true else false.
 Definition Reqb (a b : R) : bool := if Req_EM_T a b then true else false.
 Definition rlit2 (m e : Z) : R := IZR m * powerRZ 10 e.
 Definition rvdenote : venv -> vexpr -> option (vvalue R) :=
-  vdenote Rplus Rminus Rmult Rdiv 0 1 Rabs Rleb Reqb INR rlit2 (fun _ f => f).
+  vdenote Rplus Rminus Rmult Rdiv 0 1 Rabs Rleb Reqb INR rlit2 sqrt (fun _ f => f).
 Definition rsum (n : nat) (f : nat -> R) : R := vsum Rplus 0 n f.
 
 Definition env_fit (n : nat) (A : nat -> nat -> R) (s : nat -> R) (init : vvalue R) (k : nat) (alpha : R) : venv :=
